@@ -18,6 +18,7 @@ import numpy as np
 
 from vt import alg, extract, sx
 from vt.alg import Ctx, X
+from . import ops
 from vt.core import Ob, Verdict, Refuted, Unsupported, DISCHARGED, REFUTED
 
 PROP = "C12"
@@ -666,13 +667,15 @@ def build(tier, seed):
     obs.append(Ob("canary.keeps_axes", ob_keeps_axes, (True,), "P", expect=REFUTED))
     functions = {q: extract.get(LP, q).describe() for q in ("_KeepsFeAxes", "FeArray._align", "FeArray.__array_ufunc__", "FeArray.__array_function__", "FeArray.__matmul__",
                                                          "FeArray._dot_subscript", "FeArray._ddot_subscript", "FeArray.dot", "FeArray.ddot", "FeArray.broadcast", "Det", "Inv", "Trace", "TensorProd")}
+    obs += ops.fearray_obligations('C12', tier)
+    obs.append(ops.selfcheck_ob('C12'))
     return dict(
         obs=obs, level="other", min_obligations=20,
         explanation=("Index-bookkeeping helpers are decided exhaustively (finite domains). The operators are the real FeArray methods: on the fully colliding "
                      "shape with distinct symbolic entries every result entry is a polynomial identity; on the whole shape grid (all collisions, ranks 0-4, both "
                      "operand orders, FeArray / ndarray / scalar / Field operands, ufuncs, reducers, dispatched functions) they are compared with explicit per-(e,p) "
                      "loops on integer-valued data, including the result-type rule."),
-        trusted_base=["numpy's own tensordot / einsum / ufuncs as the per-point oracle", "sympy normal form"],
+        trusted_base=ops.GP_TRUST + ["numpy's own tensordot / einsum / ufuncs as the per-point oracle", "sympy normal form"],
         assumptions=["grid bounded to Ne, nPg, dim <= 3; integer-valued sample data for the X-tier (operations do not branch on values)"],
         functions=functions,
         dropped=["B/X tiers run the imported FeArray unmodified"],
